@@ -5,3 +5,6 @@ import Rp2.Props.C07
 #print axioms Rp2.C07.model_final
 #print axioms Rp2.C07.model_accounts_once
 #print axioms Rp2.C07.model_holder_totals
+#print axioms Rp2.C07.model_balances_reconcile_with_lots
+#print axioms Rp2.C07.model_sum_of_final_balances
+#print axioms Rp2.C07.model_balances_reconcile_with_lots_to_date
